@@ -24,3 +24,9 @@ open Cascette.Props.C17
 #print axioms ptr_reload_id_partial
 #print axioms ptr_touch_present_mru_full
 #print axioms ptr_checkpoint_file_wellformed
+#print axioms reload_sees_last_checkpoint_counter
+#print axioms reload_sees_last_checkpoint_counter_reopen
+#print axioms reload_sees_last_checkpoint_partial
+#print axioms reset_keeps_generation
+#print axioms ptr_refines_textbook_full_shutdown
+#print axioms ptr_reload_sees_last_checkpoint
